@@ -49,23 +49,39 @@ def generate(seed, tier, index):
     steps = [{"spec": s, "style": library_style() if lib else rand_style(rng)} for s in stream]
     for st in steps:
         st["style"]["decl"] = st["style"]["decl"] if st["style"]["decl"] in (0, 1) else 1
-    return {"world": world, "awkward": awkward, "steps": steps,
+    eager = rng.randint(1, min(3, len(steps))) if world != "snoop" and rng.random() < 0.3 else 0
+    return {"world": world, "awkward": awkward, "steps": steps, "eager": eager,
+            "connect_delay": rng.choice([0.0, 0.0, 0.001, 0.5]),
             "net": {"latency": rng.choice(["zero", "lan", "slow", "bursty"]), "frag": rng.choice(["whole", "fixed:1", "fixed:7", "random", "coalesce"]), "hwm": 65536},
             "batch": rng.choice([1, 1, 3, 100]), "seed": rng.randrange(1 << 30)}
 
 
 def execute(scen):
     net = scen["net"]
-    cfg = NetConfig(latency=net["latency"], frag_default=net["frag"], hwm=net["hwm"])
+    cfg = NetConfig(latency=net["latency"], frag_default=net["frag"], hwm=net["hwm"], connect_delay=scen.get("connect_delay", 0.0))
     viol, probes = [], {}
     facts = {"world": scen["world"], "awkward": scen["awkward"]}
+    n_eager = scen.get("eager", 0) if scen["world"] != "snoop" else 0
+    eager_bytes = b""
+    for st in scen["steps"][:n_eager]:
+        from ..gen.spellings import spell as _spell
+        eager_bytes += _spell({k: v for k, v in st["spec"].items() if k != "awkward"}, st["style"]).encode("latin1", "xmlcharrefreplace")
     situations = set()
     applied_updates = 0
     with Sim(scen["seed"], cfg, PoolConfig()) as sim:
-        world = W.SnoopWorld(sim) if scen["world"] == "snoop" else W.NetClientWorld(sim)
+        pre_applied = []
+        if scen["world"] == "snoop":
+            world = W.SnoopWorld(sim)
+        else:
+            # the world's constructor already runs the client's start-up; messages the eager server pushed are applied during it
+            W.NetClientWorld._early = pre_applied
+            world = W.NetClientWorld(sim, eager=eager_bytes or None)
         model = ClientModel()
         client = world.client
-        poisoned = [False]  # after an awkward item the mirror is no longer compared (survival only)
+        poisoned = [False]
+        replaying = [False]
+        if n_eager:
+            probes["server_pushed_before_being_asked"] = 1  # after an awkward item the mirror is no longer compared (survival only)
 
         def after(view, raised):
             nonlocal applied_updates
@@ -93,7 +109,7 @@ def execute(scen):
                 situations.add("redefinition" if a.get("device") in before_devs else "definition")
             elif tag == "delProperty":
                 situations.add("del_whole_device" if a.get("name") is None else "del_property")
-            if poisoned[0]:
+            if poisoned[0] or replaying[0]:
                 return
             d = diff_snapshots(model.snapshot(), library_snapshot(client))
             if d:
@@ -102,7 +118,17 @@ def execute(scen):
         world.after_apply = after
         sent_views = []
         pending = 0
-        for st in scen["steps"]:
+        # messages pushed eagerly were applied (or lost!) while the client was starting: replay them through the oracle
+        for i, st in enumerate(scen["steps"][:n_eager]):
+            if st["spec"].get("awkward"):
+                poisoned[0] = True
+            sent_views.append(view_of_spec(st["spec"]))
+        early = list(world.applied)
+        for k, v in enumerate(early):
+            replaying[0] = k < len(early) - 1  # the client is already past them: compare the views once, after the last one
+            after(v, None)
+        replaying[0] = False
+        for st in scen["steps"][n_eager:]:
             if viol:
                 break
             spec = st["spec"]
